@@ -27,6 +27,9 @@ func checkC03(p *Prog, c *Check) {
 	c03NoDistinct(p, c)
 	optionsAppliedFirst(p, c, "C03-R7b")
 	identitiesHashInputs(p, c, "C03-R9")
+	keysBelongToTrigger(p, c, "C03-R10")
+	storedSharesAreAggregated(p, c, "C03-R11")
+	aggregationSkipsShortIdentities(p, c, "C03-R12")
 }
 
 func c03Send(p *Prog, c *Check) {
